@@ -17,6 +17,9 @@ import os
 import re
 import sys
 
+if '/verif' not in sys.path:
+    sys.path.insert(0, '/verif')
+
 from gen.progs import gen_program
 from gen.rng import Rng
 from lib.vlib import Check, NCPU, check_props, coq_eval_many, coq_result, vh
@@ -30,7 +33,7 @@ HEADER = ('From Coq Require Import ZArith NArith List Bool. Import ListNotations
           'From SV Require Import Common.Int32 C02deep.Syntax C02deep.Sem C02loop.Corr.\n'
           'Open Scope Z_scope.\n')
 COLS = ['status', 'wf', 'licm', 'extract', 'alg', 'ive', 'sr', 'old_K_licm_divmod', 'old_K_guard_used', 'K_iv', 'K_iv_known', 'K_iv_exact',
-        'K_base_dropped', 'K_nested_break', 'runs_same', 'runs_differ', 'trap_prefix_ok', 'trap_prefix_lost']
+        'K_base_dropped', 'K_nested_break', 'K_sr_defs', 'runs_same', 'runs_differ', 'trap_prefix_ok', 'trap_prefix_lost']
 MIN32, MAX32 = -2 ** 31, 2 ** 31 - 1
 
 
@@ -432,8 +435,8 @@ def loops(ck, tier, seed):
         ck.count('loop:tie:' + k, v)
     ck.extra_cov['loop_tie'] = nstat
     ck.extra_cov['loop_subpasses_fired'] = {c: tot[c] for c in ('licm', 'extract', 'alg', 'ive', 'sr')}
-    ck.extra_cov['loop_classes_met'] = {c: tot[c] for c in COLS[7:14]}
-    ck.extra_cov['loop_sanity_runs'] = {c: tot[c] for c in COLS[14:]}
+    ck.extra_cov['loop_classes_met'] = {c: tot[c] for c in COLS[7:15]}
+    ck.extra_cov['loop_sanity_runs'] = {c: tot[c] for c in COLS[15:]}
     ck.obligation('C02loop tie ran', nstat['same'] > 0, json.dumps(nstat))
     print('C02loop tie: %s; sub-passes fired %s; classes met %s; sanity runs %s'
           % (nstat, ck.extra_cov['loop_subpasses_fired'], ck.extra_cov['loop_classes_met'], ck.extra_cov['loop_sanity_runs']))
